@@ -49,8 +49,8 @@ def build_cases(ctx, want_equations=None):
             for b in sides:
                 if core.tuple_size(a) + core.tuple_size(b) + 1 <= n:
                     add(("B", 0, "eq", a, b), "exhaustive")
-    nrand = 1200 if quick else 60000
-    max_nodes = 45 if quick else 90
+    nrand = 1200 if quick else 12000
+    max_nodes = 45 if quick else 60
     for i in range(nrand):
         depth = rng.choice([2, 3, 3, 4] if quick else [2, 3, 3, 4, 4, 5])
         eq = (want_equations is True) or (want_equations is None and rng.random() < 0.3)
